@@ -16,3 +16,5 @@ open Gldap.Session
 #print axioms session_ids
 #print axioms pipelined_session
 #print axioms Ber.readPacket_len
+#print axioms session_append
+#print axioms Ber.readPacket_ext
